@@ -2027,7 +2027,7 @@ impl Property for C16 {
                 shrink_budget: 1500,
             },
             Tier::Thorough => Plan {
-                scenarios: 150_000,
+                scenarios: 500_000,
                 time_cap_s: 600,
                 shrink_budget: 3000,
             },
